@@ -14,14 +14,7 @@
 (* (zero-extended or truncated) to the operation width w, the result has   *)
 (* width w.  Written from that documentation, never from the evaluator.    *)
 (***************************************************************************)
-EXTENDS Integers, Sequences, SequencesExt, Bitwise, TLC
-
-\* Bind an expression to a concrete value before using it several times.
-\* (TLC evaluates LET definitions and operator arguments lazily.)
-Let1(E, F(_))            == CHOOSE y \in {F(x) : x \in {E}} : TRUE
-Let2(E1, E2, F(_,_))     == CHOOSE y \in {F(x1, x2) : x1 \in {E1}, x2 \in {E2}} : TRUE
-Let3(E1, E2, E3, F(_,_,_)) ==
-    CHOOSE y \in {F(x1, x2, x3) : x1 \in {E1}, x2 \in {E2}, x3 \in {E3}} : TRUE
+EXTENDS Integers, Sequences, SequencesExt, Bitwise, TLC, Eager
 
 \* <<1, ..., n>>.  Loops are written as FoldLeft over an index tuple: FoldLeft
 \* is iterated natively by TLC, whereas a RECURSIVE operator nests one evaluation
